@@ -3,8 +3,6 @@ import Mathlib.Tactic.Linarith
 /-! Helper lemmas for C13: the binary search of `addr2LinerNM.addrInfo`. -/
 namespace PV.Elf
 
-def SortedByAddr (m : List Sym) : Prop := List.Pairwise (fun a b => a.address ≤ b.address) m
-
 theorem sorted_idx (m : List Sym) (hs : SortedByAddr m) (i j : Nat) (a b : Sym)
     (hij : i ≤ j) (ha : m[i]? = some a) (hb : m[j]? = some b) : a.address ≤ b.address := by
   rcases Nat.eq_or_lt_of_le hij with h | h
